@@ -93,12 +93,14 @@ def _gen_random(rng, i, job):
     name = rng.choice(BUILTIN) if rng.random() < 0.4 else rng.choice(names)
     if rng.random() < 0.15:
         name = user_names(rng, 1)[0]
-    body = G.verb_body(rng, name)
+    mode = 'noopt' if (name not in BUILTIN and name not in SKIP_ONLY and rng.random() < 0.3) else 'skip'
+    # without the option the environment is an ordinary one, for which `\end {name}` (spacer before the name) IS the
+    # closer: the near misses are only near misses for a verbatim-like environment
+    body = G.verb_body(rng, name, near=(mode == 'skip'))
     if rng.random() < 0.3:
         body = ''.join(rng.choice(PIECES) for _ in range(rng.randint(8, 20)))
         if not G.verb_body_ok(body, name):
-            body = G.verb_body(rng, name)
-    mode = 'noopt' if (name not in BUILTIN and name not in SKIP_ONLY and rng.random() < 0.3) else 'skip'
+            body = G.verb_body(rng, name, near=(mode == 'skip'))
     src, spec = build(name, rng.randrange(len(CONTEXTS)), body, mode)
     return src, None, spec
 
